@@ -68,6 +68,23 @@ def canon_value(x):
     return ("repr", repr(x))
 
 
+def core_fx(x):
+    from .core import fx
+
+    return fx(x)
+
+
+def build_c15(workload):
+    """graphs.build plus the in-place writes the workload asks for."""
+    from .core import xf
+
+    g = graphs.build(workload)
+    for spec, v in zip(workload["vertices"], g._vertices):
+        if spec.get("raw_heading") is not None:
+            v.pose[2] = xf(spec["raw_heading"])
+    return g
+
+
 def pose_pool(g):
     """Locators of every pose-valued piece of state."""
     pool = []
@@ -169,7 +186,7 @@ class C15(OptEngineBase):
     ]
     PROBES = [
         "numeric_jacobian_on_fixed_vertex", "same_vertex_twice_in_edge", "nary_edge", "export_failed", "export_ok", "optimize_failed",
-        "alias_test", "returned_buffer_test", "history_len_50", "copy_test", "query_raised_naturally", "optimize_ok",
+        "alias_test", "returned_buffer_test", "history_len_50", "copy_test", "query_raised_naturally", "optimize_ok", "raw_heading_written_in_place",
     ]
 
     # ------------------------------------------------------------------ generate
@@ -199,7 +216,14 @@ class C15(OptEngineBase):
             if table:
                 workload["params"] = [{"key": ["PARAMS_SE3OFFSET", k], "v": v} for k, v in table.items()]
                 meta["params"] = len(table)
-        g = graphs.build(workload)
+        # some SE(2) headings are written in place by the owner of the graph (v.pose[2] = theta): in range, but not a
+        # value the constructor's wrap would have produced
+        if rng.random() < 0.25:
+            for v in verts:
+                if v["pose"]["t"] == "SE2" and rng.random() < 0.5:
+                    v["raw_heading"] = core_fx(rng.choice([rng.uniform(-3.1, 3.1), 0.1, 0.3, 0.7, -2.5, 1e-10, 1e-17, 3.0]))
+                    meta["raw_heading"] = True
+        g = build_c15(workload)
         pool = pose_pool(g)
         ne = len(workload["edges"])
         nv = len(verts)
@@ -399,8 +423,10 @@ class C15(OptEngineBase):
         n_q = 0
         n_opt_ok = 0
         with World(case.get("config"), None if dry else case.get("faults"), log) as w:
-            g = graphs.build(case["workload"])
+            g = build_c15(case["workload"])
             snap = snapshot(g)
+            if not dry and meta.get("raw_heading"):
+                res.probe("raw_heading_written_in_place")
             for i, op in enumerate(ops):
                 w.begin_op(i)
                 if op["op"] == "optimize":
